@@ -291,6 +291,16 @@ def generate(tier):
     ps.append(Probe("implied-static/static_ref_gc/collecting_is_rejected", coll_src, "reject", group="implied-static"))
     coll2 = prog(SHAPE_ITEMS, "let flag = Rc::new(Cell::new(false));\nlet mut arena = Arena::<Rootable![(u8, &'static Gc<'_, P>)]>::new(|mc| { let keep = Gc::new(mc, P(flag.clone())); (0, &*Box::leak(Box::new(keep))) });\nlet _ = arena.mark_debt();\n")
     ps.append(Probe("implied-static/static_ref_gc/collecting_tuple_is_rejected", coll2, "reject", group="implied-static"))
+    # collecting needs the root to be Collect for EVERY brand, not just for the 'static instantiation the arena stores
+    general = {
+        "static_wrapper_of_gc": ("Static<Gc<'_, u32>>", "Static(Gc::new(mc, 1u32))"),
+        "cell_of_branded_ref": ("(Gc<'_, Lock<u32>>, Cell<Option<&'_ Lock<u32>>>)", "{ let g = Gc::new(mc, Lock::new(1u32)); (g, Cell::new(Some(Gc::as_ref(g)))) }"),
+        "refcell_of_gc": ("RefCell<Vec<Gc<'_, u32>>>", "RefCell::new(vec![Gc::new(mc, 1u32)])"),
+    }
+    for gname, (rty, init) in general.items():
+        for cname, call in (("finish_cycle", "arena.finish_cycle();"), ("collect_debt", "arena.collect_debt();"), ("finish_marking", "let _ = arena.finish_marking();"), ("mark_debt", "let _ = arena.mark_debt();"), ("cycle_debt", "arena.cycle_debt();")):
+            ps.append(Probe(f"collect_needs_general_root/{gname}/{cname}", prog("", f"let mut arena = Arena::<Rootable![{rty}]>::new(|mc| {init});\n{call}"), "reject", group="general_root"))
+    ps.append(Probe("collect_needs_general_root/twin", prog("", "let mut arena = Arena::<Rootable![(Gc<'_, Lock<u32>>, Static<Cell<u32>>)]>::new(|mc| (Gc::new(mc, Lock::new(1u32)), Static(Cell::new(1))));\narena.finish_cycle(); arena.collect_debt(); let _ = arena.finish_marking(); let _ = arena.mark_debt(); arena.cycle_debt();"), "accept", group="general_root"))
     return {
         "probes": ps,
         "rule": "grammar: branded thing {Gc, fresh Gc, GcWeak, &'gc T, &Mutation, &Finalization, DynamicRootSet, &Write, &Cell from unlock, &Root, Ref, RefMut, nested container} x escape route {return, return inside a closure / boxed closure / async block / iterator / Option<Box>, outer variable, outer Vec, outer RefCell, outer Rc<RefCell>, thread_local, static OnceLock, T: 'static bound, Box<dyn Any>, scoped thread by move / by share, channel} x entry point {new, try_new, mutate, mutate_root, map_root, try_map_root, finalize, rootless_mutate}; 13-15 cross-arena uses under nested mutate and nested finalize, root swap, foreign builder completion; 8 re-entrant collection calls from mutate and finalize; shrink/grow variance by value and behind & for 18 pointer/context/builder types; shrink/grow of the PAYLOAD lifetime of 7 written-to types (builders, Gc<Lock>, Gc<RefLock>) and the builder-covariance exploit; Send and Sync for 18 types incl. arenas with plain-data roots; root-type shapes implying 'gc: 'static x 4 entry points x 2 routes. Every negative has a positive twin; non-trivial = negative probes",
